@@ -244,4 +244,36 @@ Proof.
   intros Hs Hv Hl. unfold api_trigger. fold (trigger_start start). rewrite Hs, Hv. cbn [negb]. unfold bind at 1. rewrite Hl. reflexivity.
 Qed.
 
+(* ---------- C13: pause.go autoRetryConsumer ---------- *)
+(* a run that is not (any longer) Paused — resumed, cancelled, ... — is left alone: nothing after the lookup *)
+Lemma retry_leaves_unpaused_alone e s r s1 :
+  p_lookup (e_run e) s = (Ok (Some r), s1) -> r_state r <> RSPaused -> retry_handler c e s = (Ok tt, s1).
+Proof.
+  intros Hl Hs. unfold retry_handler. unfold bind at 1. rewrite Hl.
+  assert (E : rs_eqb (r_state r) RSPaused = false) by (destruct (r_state r); try reflexivity; contradiction).
+  rewrite E. reflexivity.
+Qed.
+
+(* still Paused, but the resume interval has not elapsed since the record was last updated: nothing after the lookup *)
+Lemma retry_waits_for_the_interval e s r s1 :
+  p_lookup (e_run e) s = (Ok (Some r), s1) -> r_state r = RSPaused -> r_updated r > w_now (o_w s1) - ec_retry c ->
+  retry_handler c e s = (Ok tt, s1).
+Proof.
+  intros Hl Hs Hu. unfold retry_handler. unfold bind at 1. rewrite Hl.
+  assert (Ep : rs_eqb (r_state r) RSPaused = true) by (rewrite Hs; reflexivity). rewrite Ep. cbn [negb].
+  unfold bind at 1, get_w. cbn [fst snd].
+  assert (E : (r_updated r >? w_now (o_w s1) - ec_retry c) = true) by (apply Z.gtb_lt; lia). rewrite E. reflexivity.
+Qed.
+
+(* still Paused and the interval has elapsed: resumed through the controller (Paused -> Running, nothing else) *)
+Lemma retry_resumes_after_the_interval e s r s1 :
+  p_lookup (e_run e) s = (Ok (Some r), s1) -> r_state r = RSPaused -> r_updated r <= w_now (o_w s1) - ec_retry c ->
+  retry_handler c e s = (x <- ctl_do c r RSRunning 0 ;; match fst x with Ok _ => ret tt | Err er => fail er end) s1.
+Proof.
+  intros Hl Hs Hu. unfold retry_handler. unfold bind at 1. rewrite Hl.
+  assert (Ep : rs_eqb (r_state r) RSPaused = true) by (rewrite Hs; reflexivity). rewrite Ep. cbn [negb].
+  unfold bind at 1, get_w. cbn [fst snd].
+  assert (E : (r_updated r >? w_now (o_w s1) - ec_retry c) = false) by (rewrite Z.gtb_ltb; apply Z.ltb_ge; lia). rewrite E. reflexivity.
+Qed.
+
 End HF.
